@@ -591,10 +591,18 @@ func depthBounded(comp []*ssa.Function) (bool, string) {
 				return
 			}
 			bo, ok := iff.Cond.(*ssa.BinOp)
-			if !ok || !(bo.Op == token.GTR || bo.Op == token.GEQ || bo.Op == token.LSS || bo.Op == token.LEQ) {
+			if !ok || !(bo.Op == token.GTR || bo.Op == token.GEQ) {
 				return
 			}
-			if _, ok := bo.Y.(*ssa.Const); !ok {
+			if k, ok := bo.Y.(*ssa.Const); !ok || k.Value == nil || k.Int64() <= 0 {
+				return
+			}
+			// the bound must end the recursion: on its true edge no call into the cycle is reachable before return
+			tb := iff.Block().Succs[0]
+			if reachableFrom(tb, 0, func(y ssa.Instruction) bool {
+				cal := staticCallee(y)
+				return cal != nil && in[cal]
+			}, nil) != nil {
 				return
 			}
 			t := TermOf(bo.X, nil)
